@@ -321,8 +321,11 @@ class Backend(object):
         rec.pairs = [_pair(v.name) for v in vs[:nproj]]
         rec.nF = len(res)
         if not res:
-            for v in vs:
-                v.varValue = 0.0
+            # what the variables hold after an infeasible solve is up to the solver (PuLP
+            # passes on whatever CBC wrote: zeros, or the last relaxation): zeros for two
+            # thirds of the salts, an arbitrary 0/1 pattern otherwise
+            for k, v in enumerate(vs):
+                v.varValue = float((k + self.salt) % 2) if self.salt % 3 == 1 else 0.0
             lp.assignStatus(constants.LpStatusInfeasible, constants.LpSolutionInfeasible)
             rec.status = 'Infeasible'
             rec.nO = 0
